@@ -122,5 +122,5 @@ def generate(rng, tier):
 LEVEL_TEXT = ('Kernel-checked theorems about the model for ALL canonical angles: dual/undual/negate/conjugate add exactly 2 blades, differentiate/increment 1, integrate/decrement 3, '
               'remainder numerically and magnitude bit-for-bit unchanged; base_angle keeps blade mod 4; grade = blade mod 4; is_opposite <-> |blade gap| = 2 and remainders match; '
               'C07_history: by induction over ANY list of step operators the blade is the start blade plus the sum of the per-operation rules; four derivatives / two duals / derivative-then-integral add exactly 4. '
-              'copy_blade, grade_angle range and histories that mix in additions/subtractions are decided by exact-rational predicates (S3).')
+              'copy_blade reaches the exact blade of the other when not smaller, else a blade 3..6 above and congruent mod 4, remainder and magnitude untouched (blades < 2^50); grade_angle of a canonical angle is finite and in [0, 4q). Histories that mix in additions/subtractions are decided by exact-rational predicates (S3).')
 LEVEL_NOTE = ('Trusted: Coq kernel + vm_compute; 4 standard-library axioms; hand-written model validated bit-for-bit each run; harness/emitter/predicates. No libm involved.')
